@@ -211,6 +211,7 @@ def decoder_rejects(frame):
 def _fuzz(args):
     wid, seed, nconn = args
     common.scratch()
+    S.bound_rsa()
     r = random.Random(seed)
     drv = D.EngineDriver(intern=E.new_interner())
     cert = S.make_cert(1, "client")
@@ -498,3 +499,5 @@ def check(run, tier):
     run.sample({"plan": plans[len(plans) // 2]["plan"], "prescribed_responses": plans[len(plans) // 2]["sent"]})
     max_size(run)
     large_frames(run, quick)
+    run.assumptions.append("mutation corpus: RSA key generation above 8192 bits is refused by the environment (a damaged "
+                           "CreateKeyPair may ask for millions of bits)")
